@@ -4,13 +4,36 @@ import gen_bus
 
 RULE = ('python-random histories over 3 connections: AddMatch/RemoveMatch with rule texts from the grammar (every key, '
         'quoting forms, near-miss variants of held rules, invalid rules), broadcast and unicast signals and calls whose '
-        'leading arguments are strings/paths/ints chosen to sit on the prefix/namespace boundaries (every fourth scenario: rules with up to three argument keys of mixed kinds), ownership changes '
+        'leading arguments are strings/paths/ints chosen to sit on the prefix/namespace boundaries (every fourth scenario: rules with up to three argument keys of mixed kinds; every twelfth: unique names one of which is a prefix of another, named in rules, with the shorter one leaving), ownership changes '
         'and disconnects in between; distinct = distinct scenario texts')
 W = {'req': 1.5, 'rel': 0.7, 'query': 0.3, 'addmatch': 4, 'rmmatch': 2.5, 'signal': 6, 'call': 1, 'reply': 0.5,
      'usignal': 1.5, 'close': 0.3, 'driver_other': 0.3, 'nodest': 0.1}
 
 
+def prefix_named(rng):
+    """unique names of which one is a proper prefix of another (:1.1 and :1.12): rules that name the longer one as sender
+    or destination must survive the departure of the shorter one (whose rules are what is discarded then), keep matching,
+    and still be removable"""
+    sig = {'k': 'send', 'ty': 4, 'path': '/a', 'ifc': 'com.example.I', 'mem': 'Ma', 'sig': 's', 'body': ['x']}
+    rounds = [{'ops': {'1': [{'k': 'connect', 'uid': 0}, {'k': 'hello'}] + ([{'k': 'addmatch', 'rule': "type='signal',member='Zz'"}] if rng.random() < 0.8 else [])}},
+              {'ops': {'2': [{'k': 'connect', 'uid': 0}, {'k': 'hello'}]}}]
+    for _ in range(rng.choice([8, 9, 10])):
+        rounds.append({'ops': {'3': [{'k': 'connect', 'uid': 0}, {'k': 'hello'}, {'k': 'close'}]}})
+    rounds.append({'ops': {'3': [{'k': 'connect', 'uid': 0}, {'k': 'hello'}], '4': [{'k': 'connect', 'uid': 0}, {'k': 'hello'}]}})
+    r3 = "type='signal',sender='{u3}'"
+    r4 = rng.choice(["sender='{u4}'", "type='signal',sender='{u4}',member='Ma'"])
+    rounds.append({'ops': {'2': [{'k': 'addmatch', 'rule': r3}, {'k': 'addmatch', 'rule': r4}]}})
+    rounds.append({'ops': {'3': [dict(sig)], '4': [dict(sig)]}})
+    rounds.append({'ops': {'1': [{'k': rng.choice(['close', 'aclose'])}]}})
+    rounds.append({'ops': {'3': [dict(sig)], '4': [dict(sig)]}})
+    rounds.append({'ops': {'2': [{'k': 'rmmatch', 'rule': rng.choice([r3, r4])}]}})
+    rounds.append({'ops': {'3': [dict(sig)], '4': [dict(sig)]}})
+    return {'cfg': {}, 'rounds': rounds}
+
+
 def gen(rng, i):
+    if i % 12 == 9:
+        return prefix_named(rng)
     g = gen_bus.Gen(rng, nslots=3, nnames=2, w=W, eavesdrop=0.15 if i % 3 == 0 else 0.0, odd_rules=0.12,
                     cfg={'maxMatch': 4} if i % 5 == 4 else None)
     if i % 4 == 1:
